@@ -24,6 +24,14 @@ def scratch_root():
     return _SCRATCH_ROOT[1]
 
 
+def cleanup_scratch():
+    """Remove this process's scratch root (pool workers are ended with os._exit: atexit does not run there)."""
+    global _SCRATCH_ROOT
+    if _SCRATCH_ROOT is not None and _SCRATCH_ROOT[0] == os.getpid():
+        shutil.rmtree(_SCRATCH_ROOT[1], ignore_errors=True)
+    _SCRATCH_ROOT = None
+
+
 def fresh_dir(name="w"):
     d = os.path.join(scratch_root(), name)
     if os.path.exists(d):
